@@ -748,7 +748,9 @@ class SSHTransportBase(protocol.Protocol):
             # only in '\n'.
             # https://tools.ietf.org/html/rfc4253#section-4.2
             lines = self.buf.split(b"\n")
-            for p in lines:
+            # Only complete lines can be the version line; the last element
+            # is whatever follows the final newline.
+            for p in lines[:-1]:
                 if p.startswith(b"SSH-"):
                     self.gotVersion = True
                     # Since the line was split on '\n' and most of the time
@@ -760,6 +762,10 @@ class SSHTransportBase(protocol.Protocol):
                         return
                     i = lines.index(p)
                     self.buf = b"\n".join(lines[i + 1 :])
+                    break
+            if not self.gotVersion:
+                # Only banner lines so far: wait for the version line.
+                return
         packet = self.getPacket()
         while packet:
             messageNum = ord(packet[0:1])
